@@ -531,10 +531,10 @@ impl SimPair {
         self.tick_no += 1;
     }
 
-    /// Nothing left to send or to be acknowledged on either side (acks / sync / keepalive frames
-    /// may still be travelling).
+    /// Nothing left to send or to be acknowledged on either side and no data frame still
+    /// travelling (acks / sync / keepalive frames may be).
     pub fn quiescent(&self) -> bool {
-        (0..2).all(|e| !self.hc[e].is_send_pending() && self.hc[e].send_buffer_size() == 0)
+        (0..2).all(|e| !self.hc[e].is_send_pending() && self.hc[e].send_buffer_size() == 0 && !self.in_flight[e].iter().any(|f| f.bytes.first() == Some(&10)))
     }
 
     /// Fair phase: no faults, both endpoints step every `step_us` until quiescent or `max_us`.
